@@ -167,7 +167,7 @@ def exchange_model_requests(case, obs):
 
 
 def lifecycle_model_requests(case, obs):
-    if obs.get("infrastructure") or obs.get("harness_exception"):
+    if obs.get("infrastructure") or obs.get("harness_exception") or obs.get("deadlock"):
         return []
     if case["mode"] == "seq":
         return [{"op": "http.lifecycle", "mode": "seq",
@@ -350,6 +350,9 @@ def judge_exchange(case, obs, responses, prop="C03"):
 
 
 def judge_lifecycle(case, obs, responses):
+    if obs.get("deadlock"):
+        return Judgement(case, False, False, {"deadlock": True, "stacks": obs.get("stacks")},
+                         kind="http-lifecycle/" + case["mode"], nontrivial=True, failed_clause="deadlock")
     if obs.get("infrastructure") or obs.get("harness_exception"):
         _infra(case, obs)
     m = responses[0]
